@@ -13,6 +13,7 @@ import (
 	"go/ast"
 	"go/constant"
 	"go/parser"
+	"go/printer"
 	"go/token"
 	"go/types"
 	"os"
@@ -974,7 +975,7 @@ func main() {
 		bodyFns := []string{"dispatch.Call", "dispatch.Notify", "dispatch.handleCancel", "callRequest.Reply",
 			"callCompressedRequest.Reply", "callRequest.Serve", "callCompressedRequest.Serve", "notifyRequest.Serve",
 			"Connection.connect", "Connection.waitForConnection", "transport.closeWithErr",
-			"receiveHandler.handleReceiveDispatch", "framedMsgpackEncoder.writerLoop", "transport.receiveFramesLoop", "Connection.doReconnect", "Connection.DoCommand", "rpcResponseMessage.DecodeMessage", "receiveHandler.receiveResponse", "NetworkInstrumenter.Finish", "receiveHandler.taskLoop", "transport.receiveFrames", "framedMsgpackEncoder.encodeAndWriteInternal", "receiveHandler.Close", "dispatch.Close"}
+			"receiveHandler.handleReceiveDispatch", "framedMsgpackEncoder.writerLoop", "transport.receiveFramesLoop", "Connection.doReconnect", "Connection.DoCommand", "rpcResponseMessage.DecodeMessage", "receiveHandler.receiveResponse", "NetworkInstrumenter.Finish", "receiveHandler.taskLoop", "transport.receiveFrames", "framedMsgpackEncoder.encodeAndWriteInternal", "receiveHandler.Close", "dispatch.Close", "framedMsgpackEncoder.EncodeAndWrite", "framedMsgpackEncoder.EncodeAndWriteAsync", "framedMsgpackEncoder.encodeFrame"}
 		var items []string
 		for _, fn := range bodyFns {
 			fd, ok := fm[fn]
@@ -986,12 +987,14 @@ func main() {
 		}
 		fmt.Fprintf(&out, "Definition body_census : list (string * list stm) := [\n%s\n].\n", strings.Join(items, ";\n"))
 	}
+	goliteText := goliteFuncs(fm)
 	fmt.Fprintln(&out)
 	var ms []string
 	for _, m := range missing {
 		ms = append(ms, coqString(m))
 	}
 	fmt.Fprintf(&out, "Definition missing_facts : list string := [%s].\n", strings.Join(ms, "; "))
+	out.WriteString(goliteText)
 
 	if *outPath == "" {
 		os.Stdout.Write(out.Bytes())
@@ -1005,4 +1008,361 @@ func main() {
 		fmt.Fprintln(os.Stderr, "gen:", err)
 		os.Exit(2)
 	}
+}
+
+// ---------------------------------------------------------------- GoLite
+//
+// Statement-by-statement translation of a few small method bodies into the deeply embedded language of
+// coq/Model/GenTypes.v (expr/stmt) whose semantics is coq/Model/GoLite.v.  The walk is generic: every
+// construct outside the supported subset becomes EUnsupported/SUnsupported with its source text, so that an
+// edit of the source can never be dropped silently (Proofs/GoLiteProofs.v proves no_unsupported = true and
+// the refinement theorems about whatever is emitted here).
+
+var goliteNames = []string{
+	"prioritizedRoundRobinRemote.resetLocked", "prioritizedRoundRobinRemote.Reset",
+	"prioritizedRoundRobinRemote.GetAddress", "prioritizedRoundRobinRemote.Peek",
+	"callContainer.nextSeqid",
+}
+
+type goliteCtx struct {
+	recv     string          // receiver identifier of the function being translated
+	recvType string          // its type name
+	dupDefs  map[string]bool // local names declared more than once in the body (scoping would matter)
+	set      map[string]*ast.FuncDecl
+}
+
+func nodeText(n ast.Node) string {
+	var b bytes.Buffer
+	_ = printer.Fprint(&b, fset, n)
+	return strings.Join(strings.Fields(b.String()), " ")
+}
+
+func glUnsE(e ast.Expr) string { return "(EUnsupported " + coqString(nodeText(e)) + ")" }
+func glUnsS(s ast.Stmt, why string) string {
+	return "SUnsupported " + coqString(why+": "+nodeText(s))
+}
+
+func coqZ(s string) string {
+	if strings.HasPrefix(s, "-") {
+		return "(" + s + ")"
+	}
+	return s
+}
+
+func isSliceType(e ast.Expr) bool {
+	tv, ok := info.Types[e]
+	if !ok || tv.Type == nil {
+		return false
+	}
+	_, ok = tv.Type.Underlying().(*types.Slice)
+	return ok
+}
+
+var glSizes = types.SizesFor("gc", "amd64")
+
+// signed integer type: its width in bits
+func signedIntBits(e ast.Expr) (int64, bool) {
+	tv, ok := info.Types[e]
+	if !ok || tv.Type == nil {
+		return 0, false
+	}
+	b, ok := tv.Type.Underlying().(*types.Basic)
+	if !ok || b.Info()&types.IsInteger == 0 || b.Info()&types.IsUnsigned != 0 || b.Info()&types.IsUntyped != 0 {
+		return 0, false
+	}
+	return glSizes.Sizeof(b) * 8, true
+}
+
+func basicInfo(e ast.Expr) (types.BasicInfo, bool) {
+	tv, ok := info.Types[e]
+	if !ok || tv.Type == nil {
+		return 0, false
+	}
+	b, ok := tv.Type.Underlying().(*types.Basic)
+	if !ok {
+		return 0, false
+	}
+	return b.Info(), true
+}
+
+// a place that can be named: local variable "x" or receiver field "r.f"
+func (c *goliteCtx) place(e ast.Expr) (string, bool) {
+	switch x := e.(type) {
+	case *ast.ParenExpr:
+		return c.place(x.X)
+	case *ast.Ident:
+		if x.Name == "_" || x.Name == c.recv {
+			return "", false
+		}
+		obj := info.Uses[x]
+		if obj == nil {
+			obj = info.Defs[x]
+		}
+		v, ok := obj.(*types.Var)
+		if !ok || v.IsField() || v.Parent() == pkg.Scope() || c.dupDefs[x.Name] {
+			return "", false
+		}
+		return x.Name, true
+	case *ast.SelectorExpr:
+		id, ok := x.X.(*ast.Ident)
+		if !ok || id.Name != c.recv {
+			return "", false
+		}
+		if v, ok := info.Uses[x.Sel].(*types.Var); ok && v.IsField() {
+			return c.recv + "." + x.Sel.Name, true
+		}
+		return "", false
+	}
+	return "", false
+}
+
+// math/rand.Perm(n)
+func isRandPerm(call *ast.CallExpr) bool {
+	sel, ok := call.Fun.(*ast.SelectorExpr)
+	if !ok || sel.Sel.Name != "Perm" || len(call.Args) != 1 || call.Ellipsis.IsValid() {
+		return false
+	}
+	id, ok := sel.X.(*ast.Ident)
+	if !ok {
+		return false
+	}
+	pn, ok := info.Uses[id].(*types.PkgName)
+	return ok && pn.Imported().Path() == "math/rand"
+}
+
+func isBuiltin(e ast.Expr, name string) bool {
+	id, ok := e.(*ast.Ident)
+	if !ok || id.Name != name {
+		return false
+	}
+	_, ok = info.Uses[id].(*types.Builtin)
+	return ok
+}
+
+func (c *goliteCtx) expr(e ast.Expr) string {
+	// integer constants (literals and named constants alike)
+	if tv, ok := info.Types[e]; ok && tv.Value != nil && tv.Value.Kind() == constant.Int {
+		return "(EInt " + coqZ(tv.Value.ExactString()) + ")"
+	}
+	switch x := e.(type) {
+	case *ast.ParenExpr:
+		return c.expr(x.X)
+	case *ast.Ident, *ast.SelectorExpr:
+		if p, ok := c.place(e); ok {
+			return "(EVar " + coqString(p) + ")"
+		}
+	case *ast.CallExpr:
+		switch {
+		case isBuiltin(x.Fun, "len") && len(x.Args) == 1:
+			if bi, ok := basicInfo(x.Args[0]); isSliceType(x.Args[0]) || (ok && bi&types.IsString != 0) {
+				return "(ELen " + c.expr(x.Args[0]) + ")"
+			}
+		case isBuiltin(x.Fun, "append") && len(x.Args) == 2 && !x.Ellipsis.IsValid() && isSliceType(x.Args[0]):
+			return "(EAppend " + c.expr(x.Args[0]) + " " + c.expr(x.Args[1]) + ")"
+		case isBuiltin(x.Fun, "make") && len(x.Args) == 3:
+			at, isArr := x.Args[0].(*ast.ArrayType)
+			tv := info.Types[x.Args[1]]
+			if isArr && at.Len == nil && tv.Value != nil && tv.Value.Kind() == constant.Int && tv.Value.ExactString() == "0" {
+				return "(EMake " + coqString(nodeText(x.Args[0])) + " " + c.expr(x.Args[2]) + ")"
+			}
+		case isRandPerm(x):
+			return "(EPerm " + c.expr(x.Args[0]) + ")"
+		}
+	case *ast.IndexExpr:
+		if isSliceType(x.X) {
+			return "(EIndex " + c.expr(x.X) + " " + c.expr(x.Index) + ")"
+		}
+	case *ast.SliceExpr:
+		if isSliceType(x.X) && x.Low != nil && x.High == nil && x.Max == nil && !x.Slice3 {
+			return "(ESliceFrom " + c.expr(x.X) + " " + c.expr(x.Low) + ")"
+		}
+	case *ast.BinaryExpr:
+		switch x.Op {
+		case token.LAND:
+			return "(EAnd " + c.expr(x.X) + " " + c.expr(x.Y) + ")"
+		case token.LOR:
+			return "(EOr " + c.expr(x.X) + " " + c.expr(x.Y) + ")"
+		case token.EQL, token.NEQ:
+			bx, okx := basicInfo(x.X)
+			by, oky := basicInfo(x.Y)
+			const cmp = types.IsInteger | types.IsString | types.IsBoolean
+			if okx && oky && bx&cmp != 0 && by&cmp != 0 {
+				op := map[token.Token]string{token.EQL: "OEq", token.NEQ: "ONe"}[x.Op]
+				return "(EBin " + op + " " + c.expr(x.X) + " " + c.expr(x.Y) + ")"
+			}
+		case token.LSS, token.LEQ, token.GTR, token.GEQ:
+			bx, okx := basicInfo(x.X)
+			by, oky := basicInfo(x.Y)
+			if okx && oky && bx&types.IsInteger != 0 && by&types.IsInteger != 0 {
+				op := map[token.Token]string{token.LSS: "OLt", token.LEQ: "OLe", token.GTR: "OGt", token.GEQ: "OGe"}[x.Op]
+				return "(EBin " + op + " " + c.expr(x.X) + " " + c.expr(x.Y) + ")"
+			}
+		case token.ADD, token.SUB:
+			// the interpreter wraps + and - at 64 bits, two's complement
+			if w, ok := signedIntBits(e); ok && w == 64 {
+				op := map[token.Token]string{token.ADD: "OAdd", token.SUB: "OSub"}[x.Op]
+				return "(EBin " + op + " " + c.expr(x.X) + " " + c.expr(x.Y) + ")"
+			}
+		}
+	}
+	return glUnsE(e)
+}
+
+// X.Lock() / X.Unlock() with X the receiver (embedded mutex) or one of its fields
+func (c *goliteCtx) mutexCall(call *ast.CallExpr, method string) (string, bool) {
+	sel, ok := call.Fun.(*ast.SelectorExpr)
+	if !ok || sel.Sel.Name != method || len(call.Args) != 0 {
+		return "", false
+	}
+	if id, ok := sel.X.(*ast.Ident); ok && id.Name == c.recv {
+		return c.recv, true
+	}
+	if p, ok := c.place(sel.X); ok && strings.HasPrefix(p, c.recv+".") {
+		return p, true
+	}
+	return "", false
+}
+
+func (c *goliteCtx) block(l []ast.Stmt) string {
+	parts := make([]string, 0, len(l))
+	for _, s := range l {
+		parts = append(parts, c.stmt(s))
+	}
+	return "[" + strings.Join(parts, "; ") + "]"
+}
+
+func (c *goliteCtx) stmt(s ast.Stmt) string {
+	switch x := s.(type) {
+	case *ast.AssignStmt:
+		if len(x.Lhs) != 1 || len(x.Rhs) != 1 || (x.Tok != token.ASSIGN && x.Tok != token.DEFINE) {
+			return glUnsS(s, "assignment form")
+		}
+		if p, ok := c.place(x.Lhs[0]); ok {
+			return "SSet " + coqString(p) + " " + c.expr(x.Rhs[0])
+		}
+		if ix, ok := x.Lhs[0].(*ast.IndexExpr); ok && x.Tok == token.ASSIGN && isSliceType(ix.X) {
+			if p, ok := c.place(ix.X); ok {
+				return "SSetIdx " + coqString(p) + " " + c.expr(ix.Index) + " " + c.expr(x.Rhs[0])
+			}
+		}
+		return glUnsS(s, "assignment target")
+	case *ast.IncDecStmt:
+		if p, ok := c.place(x.X); ok && x.Tok == token.INC {
+			if w, ok := signedIntBits(x.X); ok {
+				return fmt.Sprintf("SInc %s %d", coqString(p), w)
+			}
+		}
+		return glUnsS(s, "inc/dec")
+	case *ast.IfStmt:
+		if x.Init != nil {
+			return glUnsS(s, "if with init")
+		}
+		els := "[]"
+		switch e := x.Else.(type) {
+		case nil:
+		case *ast.BlockStmt:
+			els = c.block(e.List)
+		case *ast.IfStmt:
+			els = "[" + c.stmt(e) + "]"
+		default:
+			return glUnsS(s, "else form")
+		}
+		return "SCond " + c.expr(x.Cond) + " " + c.block(x.Body.List) + " " + els
+	case *ast.ForStmt:
+		if x.Init != nil || x.Post != nil || x.Cond == nil {
+			return glUnsS(s, "for form")
+		}
+		return "SWhile " + c.expr(x.Cond) + " " + c.block(x.Body.List)
+	case *ast.RangeStmt:
+		key, keyOk := x.Key.(*ast.Ident)
+		if x.Tok != token.DEFINE || !keyOk || key.Name != "_" || x.Value == nil {
+			return glUnsS(s, "range form")
+		}
+		p, ok := c.place(x.Value)
+		call, isCall := x.X.(*ast.CallExpr)
+		if !ok || !(isSliceType(x.X) || (isCall && isRandPerm(call))) {
+			return glUnsS(s, "range operand")
+		}
+		return "SRange " + coqString(p) + " " + c.expr(x.X) + " " + c.block(x.Body.List)
+	case *ast.ReturnStmt:
+		switch len(x.Results) {
+		case 0:
+			return "SRet None"
+		case 1:
+			return "SRet (Some " + c.expr(x.Results[0]) + ")"
+		}
+		return glUnsS(s, "multi-value return")
+	case *ast.ExprStmt:
+		call, ok := x.X.(*ast.CallExpr)
+		if !ok {
+			return glUnsS(s, "expression statement")
+		}
+		if m, ok := c.mutexCall(call, "Lock"); ok {
+			return "SLock " + coqString(m)
+		}
+		if m, ok := c.mutexCall(call, "Unlock"); ok {
+			return "SUnlock " + coqString(m)
+		}
+		// r.f() with f another translated method of the same receiver type, same receiver name, no arguments
+		if sel, ok := call.Fun.(*ast.SelectorExpr); ok && len(call.Args) == 0 {
+			if id, ok := sel.X.(*ast.Ident); ok && id.Name == c.recv {
+				full := c.recvType + "." + sel.Sel.Name
+				if fd, ok := c.set[full]; ok && goliteRecv(fd) == c.recv {
+					return "SCallM " + coqString(full)
+				}
+			}
+		}
+		return glUnsS(s, "call")
+	case *ast.DeferStmt:
+		if m, ok := c.mutexCall(x.Call, "Unlock"); ok {
+			return "SDeferUnlock " + coqString(m)
+		}
+		return glUnsS(s, "defer")
+	}
+	return glUnsS(s, "statement")
+}
+
+func goliteRecv(fd *ast.FuncDecl) string {
+	if fd.Recv == nil || len(fd.Recv.List) != 1 || len(fd.Recv.List[0].Names) != 1 {
+		return ""
+	}
+	return fd.Recv.List[0].Names[0].Name
+}
+
+func goliteFuncs(fm map[string]*ast.FuncDecl) string {
+	set := map[string]*ast.FuncDecl{}
+	for _, n := range goliteNames {
+		if fd, ok := fm[n]; ok {
+			set[n] = fd
+		}
+	}
+	var items []string
+	for _, n := range goliteNames {
+		fd, ok := set[n]
+		if !ok {
+			missing = append(missing, n)
+			continue
+		}
+		c := &goliteCtx{recv: goliteRecv(fd), recvType: strings.SplitN(n, ".", 2)[0], dupDefs: map[string]bool{}, set: set}
+		// names declared twice in one body (shadowing / block scoping) are outside the flat-frame semantics
+		seen := map[string]types.Object{}
+		ast.Inspect(fd.Body, func(nd ast.Node) bool {
+			if id, ok := nd.(*ast.Ident); ok {
+				if obj := info.Defs[id]; obj != nil && id.Name != "_" {
+					if prev, ok := seen[id.Name]; ok && prev != obj {
+						c.dupDefs[id.Name] = true
+					}
+					seen[id.Name] = obj
+				}
+			}
+			return true
+		})
+		body := c.block(fd.Body.List)
+		if c.recv == "" || (fd.Type.Params != nil && len(fd.Type.Params.List) > 0) {
+			body = "[SUnsupported " + coqString("signature: "+nodeText(fd.Type)) + "]"
+		}
+		items = append(items, "  ("+coqString(n)+", mkGfun "+coqString(c.recv)+" "+body+")")
+	}
+	return "\n(* GoLite: statement-level translation of the bodies (syntax Model/GenTypes.v, semantics Model/GoLite.v) *)\n" +
+		"Definition golite_funcs : list (string * gfun) := [\n" + strings.Join(items, ";\n") + "\n].\n"
 }
